@@ -5,7 +5,9 @@ import (
 	"errors"
 	"fmt"
 	"io"
+	"sort"
 	"strings"
+	"time"
 
 	"github.com/cloudwego/eino/compose"
 	"github.com/cloudwego/eino/schema"
@@ -252,4 +254,166 @@ func CheckStepStructure(spec *GraphSpec, ref *RefResult, execs []Exec) *Mismatch
 		return &Mismatch{Class: "step-structure/extra", Detail: fmt.Sprintf("%d executions beyond the reference's steps\n%s", len(seq)-pos, RenderExecs(execs))}
 	}
 	return nil
+}
+
+// CompareExecsAllPred (all-predecessor modes): every node executes at most once;
+// observed executions ⊆ reference executions (same input); every ancestor of END
+// that ran in the reference must have executed.
+func CompareExecsAllPred(ref *RefResult, execs []Exec) *Mismatch {
+	want := map[string]string{}
+	for _, e := range ref.Execs {
+		want[e.Path] = e.In
+	}
+	seen := map[string]bool{}
+	render := func() string {
+		return "reference executions:\n  " + strings.Join(ref.ExecMultiset(), "\n  ") + "\nobserved executions:\n  " + strings.Join(ExecMultiset(execs), "\n  ")
+	}
+	for _, e := range execs {
+		if seen[e.Path] {
+			return &Mismatch{Class: "exec-twice", Detail: "node " + e.Path + " executed more than once\n" + render()}
+		}
+		seen[e.Path] = true
+		in, ok := want[e.Path]
+		if !ok {
+			return &Mismatch{Class: "exec-untriggered", Detail: "node " + e.Path + " executed although the reference skips it\n" + render()}
+		}
+		if e.InOK && in != e.In {
+			return &Mismatch{Class: "exec-wrong-input", Detail: "node " + e.Path + " executed on " + e.In + ", reference input " + in + "\n" + render()}
+		}
+	}
+	return nil
+}
+
+// MissingMustRun returns reference executions that had to happen (ancestors of END) but did not.
+func MissingMustRun(spec *GraphSpec, ref *RefResult, execs []Exec) *Mismatch {
+	seen := map[string]bool{}
+	for _, e := range execs {
+		seen[e.Node] = true
+	}
+	for k := range ref.MustRun {
+		n := spec.Node(k)
+		if n == nil || n.Kind == Passthrough || n.Kind == Sub {
+			continue
+		}
+		if !seen[k] {
+			return &Mismatch{Class: "exec-missing", Detail: "node " + k + " is an ancestor of END that the reference executes, but it never ran\n" + RenderExecs(execs)}
+		}
+	}
+	return nil
+}
+
+// CheckHappensBefore (Invoke runs): a node's body is entered only after the body of every
+// control predecessor that ran has returned.
+func CheckHappensBefore(spec *GraphSpec, execs []Exec) *Mismatch {
+	byNode := map[string]Exec{}
+	for _, e := range execs {
+		byNode[e.Node] = e
+	}
+	pi := allPredInfo(spec)
+	for _, e := range execs {
+		p := pi[e.Node]
+		if p == nil {
+			continue
+		}
+		for c := range p.ctrl {
+			pe, ok := byNode[c]
+			if !ok {
+				continue
+			}
+			if pe.EndSeq == 0 || pe.EndSeq > e.Seq {
+				return &Mismatch{Class: "started-before-predecessor-finished", Detail: fmt.Sprintf("node %s entered at #%d but its control predecessor %s returned at #%d\n%s", e.Node, e.Seq, c, pe.EndSeq, RenderExecs(execs))}
+			}
+		}
+	}
+	return nil
+}
+
+// BranchOptions enumerates the possible forced outcomes of a branch.
+func BranchOptions(b *BranchSpec) [][]string {
+	if !b.Multi {
+		var out [][]string
+		for _, t := range b.Targets {
+			out = append(out, []string{t})
+		}
+		return out
+	}
+	var out [][]string
+	n := len(b.Targets)
+	for mask := 0; mask < 1<<uint(n); mask++ {
+		if mask == 0 && !b.AllowEmpty {
+			continue
+		}
+		sel := []string{}
+		for i := 0; i < n; i++ {
+			if mask&(1<<uint(i)) != 0 {
+				sel = append(sel, b.Targets[i])
+			}
+		}
+		out = append(out, sel)
+	}
+	return out
+}
+
+// AllBranches lists the branches of a spec tree.
+func AllBranches(g *GraphSpec) []*BranchSpec {
+	var out []*BranchSpec
+	for i := range g.Branches {
+		out = append(out, &g.Branches[i])
+	}
+	for i := range g.Nodes {
+		if g.Nodes[i].Sub != nil {
+			out = append(out, AllBranches(g.Nodes[i].Sub)...)
+		}
+	}
+	return out
+}
+
+// CallGuarded runs Call on its own goroutine under the quiescence monitor: a run that
+// can never finish (every goroutine of the process parked, no timer pending) is reported
+// as stuck with the goroutine dump as witness. The watchdog is a generous wall-clock limit
+// whose firing is inconclusive, never a verdict.
+func CallGuarded(ctx context.Context, r compose.Runnable[V, V], para string, in V, chunkSeed uint64, pipeCap int, opts ...compose.Option) (o Outcome, res mon.WaitResult, dump []mon.G) {
+	done := make(chan struct{})
+	go func() {
+		defer close(done)
+		o = Call(ctx, r, para, in, chunkSeed, pipeCap, opts...)
+	}()
+	res, dump = mon.WaitDone(done, 120*time.Second)
+	if res != mon.Finished {
+		return Outcome{Para: para}, res, dump
+	}
+	return o, res, nil
+}
+
+// StuckSignature summarises where the framework's goroutines are parked.
+func StuckSignature(dump []mon.G) (string, string) {
+	var sigs []string
+	var raw strings.Builder
+	for _, g := range mon.Parked(dump, "github.com/cloudwego/eino/", "verifharness/internal/gspec") {
+		sigs = append(sigs, g.Signature())
+		raw.WriteString(g.Raw)
+		raw.WriteString("\n\n")
+	}
+	sort.Strings(sigs)
+	// de-duplicate
+	var u []string
+	for i, s := range sigs {
+		if i == 0 || s != sigs[i-1] {
+			u = append(u, s)
+		}
+	}
+	first := "unknown"
+	for _, s := range u {
+		if strings.Contains(s, "github.com/cloudwego/eino/") {
+			first = s
+			break
+		}
+	}
+	if i := strings.Index(first, "github.com/cloudwego/eino/"); i >= 0 {
+		first = first[i+len("github.com/cloudwego/eino/"):]
+	}
+	if b := strings.IndexByte(first, '['); b > 0 {
+		first = first[:b]
+	}
+	return first, strings.Join(u, "\n") + "\n\n" + raw.String()
 }
